@@ -183,6 +183,8 @@ inductive Dsat (E : EvalEnv) : Ms → List Bytes → Prop
   | hash (h : HashKind) (d p : Bytes) : p.length = 32 → E.hashF h p ≠ d → Dsat E (.hash h d) [p]
   | wrap_c (x : Ms) (s : List Bytes) : Dsat E x s → Dsat E (.wrap .c x) s
   | wrap_a (x : Ms) (s : List Bytes) : Dsat E x s → Dsat E (.wrap .a x) s
+  | and_v_d (x y : Ms) (sx sy : List Bytes) :
+    Sat E x sx → Dsat E y sy → Dsat E (.bin .and_v x y) (sx ++ sy)
   | and_b (x y : Ms) (sx sy : List Bytes) :
     Dsat E x sx → Dsat E y sy → Dsat E (.bin .and_b x y) (sx ++ sy)
   | and_b_l (x y : Ms) (sx sy : List Bytes) :
@@ -227,7 +229,7 @@ def SoundV (n : Ms) : Prop :=
 def SoundK (n : Ms) : Prop :=
   (∀ s stk al cs, executing cs = true → Sat E n s → ∃ k σ, E.sigOK k σ = true ∧
     exec E (opsOf ctx h160 false n) ⟨s ++ stk, al, cs⟩ = some ⟨k :: σ :: stk, al, cs⟩) ∧
-  (∀ s stk al cs, executing cs = true → Dsat E n s → ∃ k σ, E.sigOK k σ = false ∧
+  (∀ s stk al cs, executing cs = true → Dsat E n s → ∃ k σ, (E.sigOK k σ = false ∧ σ = []) ∧
     exec E (opsOf ctx h160 false n) ⟨s ++ stk, al, cs⟩ = some ⟨k :: σ :: stk, al, cs⟩)
 
 /-- type "W": the same as "B", reading from under the top element and writing next to it. -/
@@ -530,7 +532,7 @@ theorem sound_pk_k (hsig0 : ∀ k, E.sigOK k [] = false) (k : Key) : Sound E ctx
     | pk_k _ σ hσ =>
       exact ⟨k, σ, hσ, by simp [opsOf, exec_cons_run E (.push k) [] _ al cs rfl hc, stepExec]⟩
   · intro s stk al cs hc hs; cases hs
-    exact ⟨k, [], hsig0 k, by simp [opsOf, exec_cons_run E (.push k) [] _ al cs rfl hc, stepExec]⟩
+    exact ⟨k, [], ⟨hsig0 k, rfl⟩, by simp [opsOf, exec_cons_run E (.push k) [] _ al cs rfl hc, stepExec]⟩
 
 theorem sound_pk_h (hsig0 : ∀ k, E.sigOK k [] = false) (hH : ∀ k, E.hashF .hash160 k = h160 k)
     (k : Key) : Sound E ctx h160 (.pk_h k) := by
@@ -544,7 +546,7 @@ theorem sound_pk_h (hsig0 : ∀ k, E.sigOK k [] = false) (hH : ∀ k, E.hashF .h
   · intro s stk al cs hc hs; cases hs with
     | pk_h _ σ hσ => exact ⟨k, σ, hσ, run σ stk al cs hc⟩
   · intro s stk al cs hc hs; cases hs
-    exact ⟨k, [], hsig0 k, run [] stk al cs hc⟩
+    exact ⟨k, [], ⟨hsig0 k, rfl⟩, run [] stk al cs hc⟩
 
 theorem encodeNum_32 : encodeNum 32 = [32] := by decide
 
@@ -589,7 +591,7 @@ theorem sound_c (x : Ms) (ht : Typed ctx (.wrap .c x)) (ih : Sound E ctx h160 x)
   · intro s stk al cs hc hs
     cases hs with
     | wrap_c _ _ hs =>
-      obtain ⟨k, σ, hσ, e⟩ := kd s stk al cs hc hs
+      obtain ⟨k, σ, ⟨hσ, rfl⟩, e⟩ := kd s stk al cs hc hs
       simp [opsOf, exec_append, e, exec_cons_run E .checksig [] _ al cs rfl hc, stepExec, hσ, boolBytes]
   · intro s stk al cs hc hs
     cases hs with
@@ -633,7 +635,7 @@ theorem sound_and_v (x y : Ms) (ht : Typed ctx (.bin .and_v x y)) (ihx : Sound E
   refine ⟨?_, ?_, ?_, fun h => (hW h).elim⟩
   · intro hB
     rw [eB] at hB
-    obtain ⟨bs, _, bv⟩ := ihy.1 hB
+    obtain ⟨bs, bd, bv⟩ := ihy.1 hB
     refine ⟨?_, ?_, ?_⟩
     · intro s stk al cs hc hs
       cases hs with
@@ -641,7 +643,12 @@ theorem sound_and_v (x y : Ms) (ht : Typed ctx (.bin .and_v x y)) (ihx : Sound E
         have := vx sx (sy ++ stk) al cs hc hsx
         simp only [List.append_assoc]
         simp [opsOf, exec_append, this, bs sy stk al cs hc hsy]
-    · intro s stk al cs hc hs; cases hs
+    · intro s stk al cs hc hs
+      cases hs with
+      | and_v_d _ _ sx sy hsx hsy =>
+        have := vx sx (sy ++ stk) al cs hc hsx
+        simp only [List.append_assoc]
+        simp [opsOf, exec_append, this, bd sy stk al cs hc hsy]
     · intro s stk al cs hc hs
       cases hs with
       | and_v _ _ sx sy hsx hsy =>
@@ -662,7 +669,7 @@ theorem sound_and_v (x y : Ms) (ht : Typed ctx (.bin .and_v x y)) (ihx : Sound E
       simp [opsOf, exec_append, this, vy sy stk al cs hc hsy]
   · intro hK
     rw [eK] at hK
-    obtain ⟨ks, _⟩ := ihy.2.2.1 hK
+    obtain ⟨ks, kd⟩ := ihy.2.2.1 hK
     refine ⟨?_, ?_⟩
     · intro s stk al cs hc hs
       cases hs with
@@ -672,7 +679,14 @@ theorem sound_and_v (x y : Ms) (ht : Typed ctx (.bin .and_v x y)) (ihx : Sound E
         refine ⟨k, σ, hσ, ?_⟩
         simp only [List.append_assoc]
         simp [opsOf, exec_append, this, e]
-    · intro s stk al cs hc hs; cases hs
+    · intro s stk al cs hc hs
+      cases hs with
+      | and_v_d _ _ sx sy hsx hsy =>
+        obtain ⟨k, σ, hσ, e⟩ := kd sy stk al cs hc hsy
+        have := vx sx (sy ++ stk) al cs hc hsx
+        refine ⟨k, σ, hσ, ?_⟩
+        simp only [List.append_assoc]
+        simp [opsOf, exec_append, this, e]
 
 theorem sound_and_b (x y : Ms) (ht : Typed ctx (.bin .and_b x y)) (ihx : Sound E ctx h160 x)
     (ihy : Sound E ctx h160 y) : Sound E ctx h160 (.bin .and_b x y) := by
@@ -1184,6 +1198,7 @@ theorem len_s1 : ∀ (n : Ms), s1Typed ctx n = true →
       | or_d_r _ _ sx sy hsx hsy => exact len_orc_r hz ho (xd _ hsx) (ys _ hsy)
     · intro s hs
       cases hs with
+      | and_v_d _ _ sx sy hsx hsy => exact len_and hz ho (xs _ hsx) (yd _ hsy)
       | and_b _ _ sx sy hsx hsy => exact len_and hz ho (xd _ hsx) (yd _ hsy)
       | and_b_l _ _ sx sy hsx hsy => exact len_and hz ho (xs _ hsx) (yd _ hsy)
       | and_b_r _ _ sx sy hsx hsy => exact len_and hz ho (xd _ hsx) (ys _ hsy)
